@@ -1255,7 +1255,7 @@ def explore(ctx: Ctx) -> Exploration:
 
     new_count = 0
     for graphs, protocols, tag in batches:
-        if ctx.elapsed() > (540 if thorough else 50) and tag.endswith("c") is False:
+        if ctx.elapsed() > (480 if thorough else 50) and not tag.endswith("_c"):
             dist["batches_skipped_for_time"] += 1
             continue
         res, verdicts = run_and_judge(graphs, protocols, tag)
